@@ -358,6 +358,7 @@ def sibling_nodes():
 
 
 def sibling_queries(propset, variants, roots=(1, 2)):
+    """object-rooted nodes {a:X,b:Y,c:T} (three symbolic names) need > 6 GB and > 300 s each in H-SCRIPT: thorough tiers only"""
     from . import shapes
     qs = []
     for root, node in sibling_nodes():
@@ -366,7 +367,11 @@ def sibling_queries(propset, variants, roots=(1, 2)):
         first = node.children[0]
         plans_ = {"skip": {id(first): "skip"}, "raw": {id(first): "raw"}, "tw": {id(first): "tw"}, "full": {}}
         for v in variants:
-            qs.append(shape_script_query(propset, node, shapes.full_script(node, plan=plans_[v]), "sib-" + v, root))
+            q = shape_script_query(propset, node, shapes.full_script(node, plan=plans_[v]), "sib-" + v, root)
+            if root == 1:
+                q.mem_gb = 16
+                q.timeout = 3000
+            qs.append(q)
     return _sparse_witness(qs, 8)
 
 
@@ -481,7 +486,7 @@ def plan_C06(tier):
     if tier == "quick":
         qs += shape_variant_queries(6, 1, 6, witness_every=3) + shape_variant_queries(6, 2, 5, witness_every=3)
         qs += chain_queries(6, tier, variants=("full", "skip", "raw"))
-        qs += sibling_queries(6, ("skip", "raw"))
+        qs += sibling_queries(6, ("skip", "raw"), roots=(2,))      # object-rooted pairs: thorough
         qs += deep_chain_queries(6, (17,), ("skip",))
         qs += exhaustive_script_queries(6, 6, 5, 8)
         cfg = [(3, 5, 5, (2,)), (3, 6, 5, (1,))]
@@ -811,7 +816,7 @@ def plan_C10(tier):
         qs += [bigbuf_query(10, 2, "S", 128), bigbuf_query(10, 1, "B", 128), bigbuf_query(10, 2, "S", 127)]
     # any length / width: one decoded token (claimed-size buffer) re-encoded into a 9-byte writer buffer: header bytes and total size
     qs += [biglen_query(2, transcribe=True), biglen_query(1, transcribe=True)]
-    qs += sibling_queries(10, ("full",))
+    qs += sibling_queries(10, ("full",), roots=(2,) if tier == "quick" else (1, 2))      # object roots: > 300 s each
     qs += shape_variant_queries(10, 1, 6 if tier == "quick" else 8, variants=("full",), scalars=("T", "S1"), witness_every=4)
     qs += shape_variant_queries(10, 2, 5 if tier == "quick" else 7, variants=("full",), scalars=("T", "S1"), witness_every=4)
     qs += shape_variant_queries(10, 2, 4 if tier == "quick" else 5, variants=("full",), scalars=("B1", "D"), witness_every=4)
@@ -841,21 +846,21 @@ def plan_C11(tier):
                 s = shapes.full_script(node, plan={id(c): "tw"})
                 qs.append(shape_script_query(11, node, s, "tw", root))
         # raw on a non-container: false and nothing changes
-    qs += sibling_queries(11, ("raw", "tw"))
+    qs += sibling_queries(11, ("raw", "tw"), roots=(2,) if tier == "quick" else (1, 2))
     qs += exhaustive_script_queries(11, 6, 5, 8) if tier == "quick" else exhaustive_script_queries(11, 7, 6, 9)
     # object context with equal-length SYMBOLIC names: what get_raw leaves behind at the parent level must not disturb the
     # name bookkeeping of the following fields
     from . import shapes as _s2
-    eq = [(r, n) for r, n in sibling_nodes() if r == 1][: (3 if tier == "quick" else 16)]
+    eq = [(r, n) for r, n in sibling_nodes() if r == 1][: (0 if tier == "quick" else 16)]
     for root, node in eq:
         rn = _s2.renamed(node, 1)
         first = rn.children[0]
-        q = shape_script_query(11, rn, _s2.full_script(rn, plan={id(first): "raw"}), "sib-raw-eqnames", root, timeout=1500)
-        q.mem_gb = 5
+        q = shape_script_query(11, rn, _s2.full_script(rn, plan={id(first): "raw"}), "sib-raw-eqnames", root, timeout=3000)
+        q.mem_gb = 16
         qs.append(q)
     # parser_to_writer into a writer that the container fills EXACTLY (the two-pass sizing idiom)
     from . import shapes as _sh
-    for root, node in sibling_nodes()[:16]:
+    for root, node in [(r, n) for r, n in sibling_nodes()[:16] if tier != "quick" or r == 2]:
         first = node.children[0]
         b1, _m1 = _sh.skeleton(first)
         s = _sh.full_script(node, plan={id(first): "tw"})
@@ -1400,9 +1405,13 @@ def plan_C16(tier):
     lk = [Node("O", [Node("O", [Node("T"), Node("T")], [0, 1]), Node("T")], [1, 1]), Node("O", [Node("A", [Node("T"), Node("T")], []), Node("T")], [1, 1]),
           Node("O", [Node("T"), Node("O", [Node("T")], [0]), Node("T")], [1, 1, 2])]
     for node in lk:
-        for s in ([["GO", "F"], ["GO", "N", "F"], ["GO", "F", "F"]] if tier == "quick" else
+        # (two lookups in a row run out of solver memory under the quick tier's per-query limit: thorough only, 16 GB)
+        for s in ([["GO", "F"], ["GO", "N", "F"]] if tier == "quick" else
                   [["GO", "F"], ["GO", "N", "F"], ["GO", "F", "F"], ["GO", "N", "N", "F"], ["GO", "F", "F", "F"], ["GO", "F", "N"]]):
-            qs.append(shape_script_query(16, node, s, "lookup", 1, tight=True, timeout=1500))
+            q = shape_script_query(16, node, s, "lookup", 1, tight=True, timeout=1500)
+            if s.count("F") >= 2:
+                q.mem_gb = 16
+            qs.append(q)
     # payload-proportional loops (hex dump of a bytes value, integer packing): one inductive ranking step, any trip count
     qs += rank_queries()
     info = {
